@@ -205,6 +205,12 @@ func (p *Program) FieldAccesses(f *types.Var) []fieldAccess {
 					if fieldOf(x) != f {
 						continue
 					}
+					if g := sharedGroupField[f]; g != nil {
+						// f belongs to a type that T embeds and that is also used on its own: only T's copy counts
+						if outer, ok := x.X.(*ssa.FieldAddr); !ok || fieldOf(outer) != g {
+							continue
+						}
+					}
 					fa := fieldAccess{Fn: fn, Instr: x, Field: f}
 					for _, ref := range *x.Referrers() {
 						switch r := ref.(type) {
